@@ -103,6 +103,8 @@ pub struct Scenario {
     pub warm: bool,
     /// b.gleam lives in a second package `lib`; the change carries ONLY a package graph that adds the edge app -> lib
     pub graph_only: bool,
+    /// the change carries two texts for a.gleam (an intermediate one, then a1), as a notification with two edits does
+    pub batched: bool,
 }
 
 const A0: &str = "import b\npub fn main(x) { let y = b.inc(x) helper(y, [1, 2]) }\nfn helper(n, l) { case l { [h, ..t] -> h + n [] -> n } }\npub type W { W(f: Int) }\n";
@@ -110,12 +112,13 @@ const B0: &str = "pub fn inc(n: Int) -> Int { n + 1 }\npub fn other(s) { s <> \"
 
 pub fn scenarios() -> Vec<Scenario> {
     vec![
-        Scenario { name: "body-edit-cold", a0: A0, b0: B0, a1: "import b\npub fn main(x) { let y = b.inc(x) helper(y, [3, 4]) }\nfn helper(n, l) { case l { [h, ..t] -> h + n [] -> n } }\npub type W { W(f: Int) }\n", b1: B0, add_c: false, warm: false, graph_only: false },
-        Scenario { name: "signature-edit-cold", a0: A0, b0: B0, a1: A0, b1: "pub fn inc(n: Float) -> Float { n +. 1.0 }\npub fn other(s) { s <> \"x\" }\n", add_c: false, warm: false, graph_only: false },
-        Scenario { name: "structural-cold", a0: A0, b0: B0, a1: A0, b1: B0, add_c: true, warm: false, graph_only: false },
-        Scenario { name: "signature-edit-warm", a0: A0, b0: B0, a1: A0, b1: "pub fn inc(n: Float) -> Float { n +. 1.0 }\npub fn other(s) { s <> \"x\" }\n", add_c: false, warm: true, graph_only: false },
-        Scenario { name: "graph-only-cold", a0: A0, b0: B0, a1: A0, b1: B0, add_c: false, warm: false, graph_only: true },
-        Scenario { name: "graph-only-warm", a0: A0, b0: B0, a1: A0, b1: B0, add_c: false, warm: true, graph_only: true },
+        Scenario { name: "body-edit-cold", a0: A0, b0: B0, a1: "import b\npub fn main(x) { let y = b.inc(x) helper(y, [3, 4]) }\nfn helper(n, l) { case l { [h, ..t] -> h + n [] -> n } }\npub type W { W(f: Int) }\n", b1: B0, add_c: false, warm: false, graph_only: false, batched: false },
+        Scenario { name: "signature-edit-cold", a0: A0, b0: B0, a1: A0, b1: "pub fn inc(n: Float) -> Float { n +. 1.0 }\npub fn other(s) { s <> \"x\" }\n", add_c: false, warm: false, graph_only: false, batched: false },
+        Scenario { name: "structural-cold", a0: A0, b0: B0, a1: A0, b1: B0, add_c: true, warm: false, graph_only: false, batched: false },
+        Scenario { name: "signature-edit-warm", a0: A0, b0: B0, a1: A0, b1: "pub fn inc(n: Float) -> Float { n +. 1.0 }\npub fn other(s) { s <> \"x\" }\n", add_c: false, warm: true, graph_only: false, batched: false },
+        Scenario { name: "two-texts-in-one-change", a0: A0, b0: B0, a1: "import b\npub fn main(x) { let y = b.inc(x) helper(y, [3, 4]) }\nfn helper(n, l) { case l { [h, ..t] -> h + n [] -> n } }\npub type W { W(f: Int) }\n", b1: B0, add_c: false, warm: false, graph_only: false, batched: true },
+        Scenario { name: "graph-only-cold", a0: A0, b0: B0, a1: A0, b1: B0, add_c: false, warm: false, graph_only: true, batched: false },
+        Scenario { name: "graph-only-warm", a0: A0, b0: B0, a1: A0, b1: B0, add_c: false, warm: true, graph_only: true, batched: false },
     ]
 }
 
@@ -178,6 +181,9 @@ fn host_v(sc: &Scenario, version: u8) -> AnalysisHost {
 fn delta(sc: &Scenario) -> Change {
     let mut ch = Change::default();
     if sc.a0 != sc.a1 {
+        if sc.batched {
+            ch.change_file(FA, Arc::from("pub fn main(x) { x }\n"));
+        }
         ch.change_file(FA, Arc::from(sc.a1));
     }
     if sc.b0 != sc.b1 {
